@@ -113,8 +113,18 @@ class Model:
         self.assembled = False
         self.assembled_ops: List[str] = []
         self.assembled_merges: List[List[str]] = []
-        self.stale = False
+        self.stale_reasons: set = set()
         self.pending: Dict[Tuple[str, int], List[float]] = {}
+
+    @property
+    def stale(self) -> bool:
+        return bool(self.stale_reasons)
+
+    @property
+    def movable(self) -> bool:
+        """vertices may be moved and back-ported: assembled, and nothing but deletions happened
+        since (the deleted operation's block is still there until the next assembly)"""
+        return self.assembled and self.stale_reasons <= {"delete"}
 
     def live_ops(self) -> List[str]:
         return [n for n in self.added if n not in self.deleted]
@@ -126,12 +136,12 @@ class Model:
         self.assembled = True
         self.assembled_ops = self.live_ops()
         self.assembled_merges = [list(m) for m in self.merges]
-        self.stale = False
+        self.stale_reasons = set()
 
     def _clear(self) -> None:
         self.assembled = False
         self.assembled_ops = []
-        self.stale = False
+        self.stale_reasons = set()
         self.pending = {}
 
     def partition(self) -> Dict[Tuple[str, int], Any]:
@@ -183,17 +193,17 @@ class Model:
         elif op == "chop":
             self.recipes[st["target"]]["chops"].append(st)
             if self.assembled and st["target"] in self.added:
-                self.stale = True
+                self.stale_reasons.add("chop")
         elif op == "patch":
             r = self.recipes[st["target"]]
             r["patches"] = [p for p in r["patches"] if p["side"] != st["side"]] + [{"side": st["side"], "name": st["name"]}]
             r["patches_ops"].append(st)
             if self.assembled and st["target"] in self.added:
-                self.stale = True
+                self.stale_reasons.add("patch")
         elif op in ("zone", "project_side"):
             self.recipes[st["target"]]["other"].append(st)
             if self.assembled and st["target"] in self.added:
-                self.stale = True
+                self.stale_reasons.add("attr")
         elif op == "geometry":
             self.geometry.append(st)
         elif op == "add":
@@ -201,17 +211,17 @@ class Model:
                 raise IllFormed("add")
             self.added.append(st["target"])
             if self.assembled:
-                self.stale = True
+                self.stale_reasons.add("add")
         elif op == "delete":
             if st["target"] not in self.live_ops() or len(self.live_ops()) < 2:
                 raise IllFormed("delete")
             self.deleted.append(st["target"])
             if self.assembled:
-                self.stale = True
+                self.stale_reasons.add("delete")
         elif op == "merge":
             self.merges.append([st["master"], st["slave"]])
             if self.assembled:
-                self.stale = True
+                self.stale_reasons.add("merge")
         elif op == "default_patch":
             self.default = {"name": st["name"], "kind": st["kind"]}
         elif op == "modify_patch":
@@ -228,11 +238,11 @@ class Model:
                 raise IllFormed("crash_in_assemble")
             # half-built volatile state; the history must clear next
             self.assembled = True
-            self.stale = True
+            self.stale_reasons.add("crash")
         elif op == "clear":
             self._clear()
         elif op == "move_corner":
-            if not self.assembled or self.stale or st["target"] not in self.assembled_ops:
+            if not self.movable or st["target"] not in self.assembled_ops:
                 raise IllFormed("move")
             part = self.partition()
             key = part[(st["target"], st["corner"])]
@@ -241,8 +251,9 @@ class Model:
                     self.pending[(nn, cc)] = list(st["to"])
             ann["block_index"] = self.assembled_ops.index(st["target"])
         elif op == "backport":
-            if not self.assembled or self.stale:
+            if not self.movable:
                 raise IllFormed("backport")
+            had_block = list(self.assembled_ops)
             for (nn, cc), to in self.pending.items():
                 self.pos[nn][cc] = list(to)
             self.pending = {}
@@ -250,6 +261,7 @@ class Model:
             self._assemble()
             ann["expect_points"] = {n: [list(p) for p in pts] for n, pts in self.pos.items()}
             ann["deleted"] = list(self.deleted)
+            ann["had_block"] = had_block
         elif op == "write":
             if self.stale or self.pending or not self.live_ops():
                 raise IllFormed("write")
@@ -340,7 +352,7 @@ def gen_history(seed: int, faults: str) -> Dict[str, Any]:
             cand.append(("assemble", 3))
             if p_fault:
                 cand.append(("crash_in_assemble", 10 * p_fault))
-        if m.assembled and not m.stale:
+        if m.movable:
             cand.append(("move", 3))
             cand.append(("backport", 3))
         cand.append(("clear", 2))
@@ -363,7 +375,7 @@ def gen_history(seed: int, faults: str) -> Dict[str, Any]:
             do({"op": "crash_in_assemble", "at": rs.randint(1, 13 * len(m.live_ops()))})
             do({"op": "clear"})
         elif kind == "move":
-            n = rs.pick(m.assembled_ops)
+            n = rs.pick([x for x in m.assembled_ops if x not in m.deleted] or m.assembled_ops)
             c = rs.randrange(8)
             base_pos = m.pending.get((n, c)) or m.pos[n][c]
             to = [round(base_pos[k] + rs.uniform(-0.08, 0.08), 6) for k in range(3)]
@@ -399,7 +411,7 @@ def gen_history(seed: int, faults: str) -> Dict[str, Any]:
                 grade_fixed = True
     # every history ends with a checked write (after committing or discarding volatile changes)
     if m.stale or m.pending:
-        if m.pending and not m.stale and rs.chance(0.7):
+        if m.pending and m.movable and rs.chance(0.7):
             do({"op": "backport"})
         else:
             do({"op": "clear"})
@@ -628,6 +640,8 @@ def run_history(hist: Dict[str, Any]) -> Dict[str, Any]:
                 if op == "backport":
                     stats["backports"] += 1
                     for n, pts in ann["expect_points"].items():
+                        if n in ann["deleted"] and n in ann.get("had_block", []):
+                            continue  # deleted after assembly: whether its own points follow is not stated
                         got = [list(map(float, p)) for p in it.env[n].point_array]
                         wrong = [c for c in range(8) if max(abs(got[c][k] - pts[c][k]) for k in range(3)) > 1e-9]
                         if wrong:
